@@ -603,7 +603,7 @@ pub fn exec(case: &Case, _mode: Mode) -> Result<CaseReport, Failure> {
 pub fn main(args: &Args) -> i32 {
     let (cases, len) = match args.tier {
         Tier::Quick => (260, 6..28),
-        Tier::Thorough => (16 * 260, 6..50),
+        Tier::Thorough => (16 * 1500, 6..50),
     };
     let opts = SetupOpts {
         min_members: 2,
